@@ -252,9 +252,24 @@ def _replay_blefrag(ctx, cases):
         orig = bc.char_write
         bc.char_write = fake_char_write
         try:
-            client = type("C", (), {"address": "00:00"})()
+            class _Client:
+                """What drive_pairing_state_machine asks of the GATT client."""
+                address = "00:00"
+
+                async def get_characteristic(self, service, characteristic):
+                    return type("Char", (), {"handle": 1, "uuid": characteristic, "service_uuid": service})()
+
+                async def get_characteristic_iid(self, char):
+                    return 1
+
+            def machine():
+                # one step of a pairing state machine: request M1, expect State / PublicKey (the types of the reply);
+                # the fragment envelope types are never part of a state machine's expectation list
+                reply = yield [(6, b"\x01")], [TLV.kTLVType_State, TLV.kTLVType_PublicKey]
+                return reply
             try:
-                got = await bc._pairing_char_write(client, None, 1, [(6, b"\x01")])
+                # the entry point the BLE pair-setup / pair-verify code uses
+                got = await bc.drive_pairing_state_machine(_Client(), "pair-setup-uuid", machine())
                 res = ("done", got)
             except ValueError as ex:
                 res = ("error", str(ex))
